@@ -23,7 +23,7 @@ LEVEL = "model_checking"
 OPTIONS = {"quick": {"max_paths": 20000, "unit_budget_s": 600}, "thorough": {"max_paths": 200000, "unit_budget_s": 1800}}
 BOUNDS = {
     "quick": {"interleaving": "two sessions x schedules of 2 calls each from a reduced operation set (requests, responses, deliveries, unbind, registrations), all 6 interleavings, ids / result codes / payload symbolic", "registration": "all 8 subsets of the three custom types, symbolic payload octets; every history of 3 registrations / deliveries of two custom types of one kind on one session (decode before and after registering, rejected duplicate followed by a valid registration)"},
-    "thorough": {"interleaving": "schedules of 2: one session over the full operation set, the other over the reduced one", "registration": "same, histories of 3 and 4"},
+    "thorough": {"interleaving": "schedules of 2: for the client/server pair the client runs over the full operation set; reduced sets otherwise", "registration": "same, histories of 3 and 4"},
 }
 OUTSIDE = ["schedules longer than 3 calls per session", "more than two sessions"]
 ASSUMPTIONS = ["each run uses a freshly loaded copy of the library, so 'alone' really means no other session ever existed in that copy"]
@@ -40,7 +40,8 @@ def units(tier):
     quick = tier == "quick"
     for sa, sb in (("client", "client"), ("client", "server"), ("server", "server")):
         # thorough: session A over the full operation set, session B over the reduced one
-        opsa = (C_RED if quick else C_OPS) if sa == "client" else (S_RED if quick else S_OPS)
+        full = not quick and sa != sb  # (thorough: the mixed pair runs session A over the full operation set)
+        opsa = (C_OPS if full else C_RED) if sa == "client" else (S_OPS if full else S_RED)
         opsb = C_RED if sb == "client" else S_RED
         for a in itertools.product(opsa, repeat=2):
             for b in itertools.product(opsb, repeat=2):
